@@ -1489,7 +1489,7 @@ def C06_sched(c):
        accepted before it was called has been yielded (Uni: by some stream; Multi: by every listener entitled to it), no stream is left and the
        channel reports itself closed."""
     quick = c.tier == "quick"
-    mr, rr = (250, 150) if quick else (4000, 3000)
+    mr, rr = (250, 150) if quick else (1200, 800)
     CLOSE = op("close")
 
     def build_u(kind):
